@@ -249,7 +249,21 @@ impl EncCase {
         }
         // both documented ways to obtain a builder with the default configuration
         let mut b = if h & 0x100 == 0 { DataMatrixBuilder::new() } else { DataMatrixBuilder::default() };
+        // in half of the cases a setter is only called if the value differs from the documented default
+        // (all encodation types, SymbolList::default(), macros enabled, no FNC1 start)
+        let omit_defaults = h & 0x200 != 0;
         for k in order {
+            if omit_defaults {
+                let is_default = match k {
+                    0 => self.list == default_mask(),
+                    1 => self.modes == 63,
+                    2 => self.macros,
+                    _ => !self.fnc1,
+                };
+                if is_default {
+                    continue;
+                }
+            }
             b = match k {
                 0 => b.with_symbol_list(mask_to_list(self.list)),
                 1 => b.with_encodation_types(modes_to_flags(self.modes)),
